@@ -145,8 +145,8 @@ def e2_task(t):
     R = mpool.TaskResult()
     sv = driver.Solver(timeout_ms=30000)
     us = w.units(q)
-    sc = {u: w.scale_fr(q, u) for u in us}
-    for callee, label in (("<%s as LinearScaledUnit>::from_scale" % w.qty[q], "from_scale"), ("<%s as HasRefUnit>::unit_from_scale" % q, "unit_from_scale")):
+    sc = {u: w.scale_fr(q, u) for u in us} if w.has_ref(q) else {}
+    for callee, label in ((("<%s as LinearScaledUnit>::from_scale" % w.qty[q], "from_scale"), ("<%s as HasRefUnit>::unit_from_scale" % q, "unit_from_scale")) if w.has_ref(q) else ()):
         th = T.TRe64() if be == "f64" else T.TRed()
         run = driver.Run(w, th)
         x = th.var("x")
@@ -183,6 +183,31 @@ def e2_task(t):
             R.oblig("%s %s %s(scale of %s) = first unit with that scale" % (be, q, label, u), ok, False)
             if not ok:
                 R.inconclusive.append("%s %s %s(scale of %s): expected Some(%s), got %r" % (be, q, label, u, first, [o.value for o in o2][:1]))
+    # ---- symbol lookups on concrete strings through the real lookup code (both back-ends; Kani decides the bounded-string
+    #      family on f64 only and may time out when a lookup is rewritten with iterator adaptors over chars)
+    from engine.mirsmt.exec import Str, State
+    th0 = T.TUf(be)
+    run0 = driver.Run(w, th0, prune=False)
+    syms = []
+    for u in us:
+        st0 = run0.state()
+        o = run0.call(st0, "<%s as Unit>::symbol" % w.qty[q], [run0.ref(st0, w.unit(q, u))])
+        syms.append(o[0].value.s)
+    probes_ = [(s_, us[syms.index(s_)]) for s_ in syms] + [(s_ + "x", None) for s_ in syms[:3]] + [("", None) if "" not in syms else ("\u00b5\u03bc", None), (syms[0][:-1] or "?", None if (syms[0][:-1] or "?") not in syms else us[syms.index(syms[0][:-1])])]
+    for callee, label in (("<%s as Unit>::from_symbol" % w.qty[q], "from_symbol"), ("<%s as Quantity>::unit_from_symbol" % q, "unit_from_symbol")):
+        for s_, want in probes_:
+            st0 = run0.state()
+            outs = run0.call(st0, callee, [run0.ref(st0, Str(s_))])
+            got = None
+            ok = len(outs) == 1 and not outs[0].panic
+            if ok:
+                v = outs[0].value
+                got = None if v.variant == "None" else v.payload[0].variant
+                ok = got == want
+            R.oblig("%s %s %s(%r)" % (be, q, label, s_), ok, False)
+            if not ok:
+                R.inconclusive.append("%s %s %s(%r): expected %s, the lookup code yields %s" % (be, q, label, s_, want, got))
+    R.absorb_exec(run0.ex)
     R.absorb_solver(sv)
     return R
 
@@ -194,7 +219,8 @@ def e2_part(report, tier):
     pool = mpool.Pool(jobs=4)
     try:
         desc = E.describe_worlds(pool, keys)
-        tasks = [(keys[label], q) for label in keys for q in desc[label]["qty"] if desc[label]["has_ref"][q] and q not in ("f64", "Decimal")]
+        tasks = [(keys[label], q) for label in keys for q in desc[label]["qty"] if q not in ("f64", "Decimal")
+                 and not (label.startswith("fix") and q not in desc[label].get("own", []))]
         tasks = sorted(set(tasks), key=str)
         pool.run(report, e2_task, tasks)
         report.bounds["e2_scale_lookup"] = "from_scale / unit_from_scale for a symbolic amount (any real, comparisons exact) and for every declared scale: all catalogue types in f64 and decimal, astronomical types, synthetic types"
